@@ -61,6 +61,11 @@ let () =
           let h = List.filter_map (fun e -> parse_event e obs)
                     (if body = "" then [] else split_str " ; " body) in
           let obs_l = List.rev !obs in
+          (* as the Go side: entries whose operation is not in the history are dropped
+             (only happens while the shrinker removes events) *)
+          let invoked = Hashtbl.create 64 in
+          List.iter (function Inv (i, _) -> Hashtbl.replace invoked i () | _ -> ()) h;
+          log := List.filter (fun i -> Hashtbl.mem invoked i) !log;
           Printf.printf "%s WF %s\n" id (if wf_histb h then "true" else "false");
           Printf.printf "%s LIN %s\n" id (if check_log h !log obs_l then "ok" else "bad");
           Printf.printf "%s FINAL %s\n" id (show_state (log_state h !log))
